@@ -542,15 +542,15 @@ func newC09Anchors(c *kit.Ctx) *c09Anchors {
 			}
 			return true
 		})
-		if seenE && seenP {
+		if seenE || seenP {
 			if a.credFn != nil {
-				c.Fatalf("two functions of package store read User.Email and User.Pass: %s and %s", a.credFn.Name, f.Name)
+				c.Fatalf("two functions of package store read the user's e-mail / password fields: %s and %s", a.credFn.Name, f.Name)
 			}
 			a.credFn = f
 		}
 	}
 	if a.credFn == nil {
-		c.Fatalf("credential check (function of package store reading data.User Email and Pass) not found")
+		c.Fatalf("credential check (function of package store reading the user's e-mail or password field) not found")
 	}
 
 	// ---- api: handler entries and bus reachability
